@@ -184,11 +184,16 @@ Section Ctr.
   (* keystream block i: E(nonce_be64 || i_be64) *)
   Definition keystream (nonce i : N) : list N := E (be64 nonce ++ be64 i).
 
-  (* the first n keystream blocks, concatenated *)
-  Definition keystream_bytes (nonce : N) (n : nat) : list N :=
-    flat_map (keystream nonce) (N_seq 0 n).
+  (* n consecutive keystream blocks starting with block B, concatenated *)
+  Definition keystream_bytes_from (nonce B : N) (n : nat) : list N :=
+    flat_map (keystream nonce) (N_seq B n).
 
-  (* data XOR keystream, as many blocks as the data needs *)
-  Definition ctr_spec (nonce : N) (data : list N) : list N :=
-    xor_list data (keystream_bytes nonce ((length data + 15) / 16)%nat).
+  (* data XOR the keystream from block B on, as many blocks as the data needs (CTR mode is random
+     access: this is what a stream positioned at byte 16*B must produce) *)
+  Definition ctr_spec_from (nonce B : N) (data : list N) : list N :=
+    xor_list data (keystream_bytes_from nonce B ((length data + 15) / 16)%nat).
+
+  (* the first n keystream blocks, and the stream from its beginning *)
+  Definition keystream_bytes (nonce : N) (n : nat) : list N := keystream_bytes_from nonce 0 n.
+  Definition ctr_spec (nonce : N) (data : list N) : list N := ctr_spec_from nonce 0 data.
 End Ctr.
